@@ -18,6 +18,16 @@ ENGINES = [
      'kind_free_text': 'fault / delay / park (gate) / cancel injection at boundary events; quiescence-driven gate controller'},
     {'name': 'watchdog', 'path': 'vf/watchdog.py', 'serves_properties': [],
      'kind_free_text': '/proc-based quiescence detector and logical deadlock verdict'},
+    {'name': 'yieldinj', 'path': 'vf/yieldinj.py', 'serves_properties': [],
+     'kind_free_text': 'sys.monitoring LINE-event yield injection and race-window steering on s3transfer code objects only'},
+    {'name': 'model', 'path': 'vf/props/c12.py vf/props/c16.py vf/props/c17.py', 'serves_properties': ['C12', 'C16', 'C17'],
+     'kind_free_text': 'reference models written from the statements, compared with the real classes over the reachable state graph'},
+    {'name': 'vtime', 'path': 'vf/vtime.py', 'serves_properties': ['C13'],
+     'kind_free_text': 'baton-scheduled virtual-time simulator around the real LeakyBucket / BandwidthLimitedStream'},
+    {'name': 'procpool', 'path': 'vf/frontends.py', 'serves_properties': ['C02', 'C06', 'C14', 'C15', 'C19'],
+     'kind_free_text': 'legacy S3Transfer and thread-backed real ProcessPoolDownloader front-ends on the same fake world'},
+    {'name': 'crtstub', 'path': 'vf/crtstub.py', 'serves_properties': ['C20'],
+     'kind_free_text': 'stub awscrt package + scriptable CRT client'},
     {'name': 'runner', 'path': 'vf/runner.py vf/worker.py vf/check.py vf/replay.py', 'serves_properties': [],
      'kind_free_text': 'shards cases over 16 worker subprocesses, classifies against known_findings.json, writes evidence/replays'},
 ]
@@ -120,3 +130,35 @@ chk('C18', 'exploration',
     'a fresh transfer and the capacity probe are checked.',
     'Schedules sampled; fault positions sampled per victim.', 'barrier trace check + differential isolation runs', '4 C18',
     'world,director,watchdog,runner')
+
+chk('C13', 'exploration',
+    'Real LeakyBucket/BandwidthLimitedStream objects on real threads under a baton-scheduled virtual clock (default and coarse '
+    'profiles, late wake-ups, 1-8 streams, adversarial read sizes / think times, streams abandoned at each wait point) with offline '
+    'oracles O1-O6 over the read and sleep logs, plus an end-to-end smoke through TransferManager(max_bandwidth).',
+    'Wall-clock behaviour is represented by the lateness parameter only; the burst allowance B is deliberately loose. Two genuine '
+    'defects (F6, F7) are recorded in known_findings.json and reported as KNOWN-FINDING.',
+    'virtual-time simulation with offline rate / wait-bound oracles', '4 C13', 'vtime,runner')
+chk('C14', 'exploration',
+    'Real transfers against the API-level fake: the complete scaled domain (size 0..64 x threshold 1..16 x chunksize 1..16; thorough '
+    'exhaustive, quick a seeded third) and real-scale boundary sizes up to 5 TiB incl. 10000-part plans, for uploads, copies and the '
+    'three download front-ends; tiling / part-number / S3-limit oracle over the request log.',
+    'Bodies are never read (virtual sizes); unknown-size streams cannot be planned and are excluded.',
+    'request-log tiling oracle at API level', '4 C14', 'world,runner')
+chk('C15', 'exploration',
+    'Exhaustive table: every allowed extra-argument name x method x mode (incl. failing multipart so the abort is seen) x front-end, '
+    'one real transfer per cell, captured keyword arguments compared with the installed botocore S3 model; all checksum-name '
+    'subsets; all non-allowed names rejected before any request.',
+    'Compared against botocore 1.43.x as installed; copy HeadObject judged by the mapped names only. Two findings (F10, F11b) are '
+    'recorded as KNOWN-FINDING.', 'exhaustive argument-routing table vs service model', '4 C15', 'world,runner')
+chk('C19', 'exploration',
+    'The real ProcessPoolDownloader with its submitter/worker loops as threads and a logging in-process TransferMonitor: one run per '
+    'cancel point, job fault, allocate/rename fault, exit mode, gates and yield injection; the directory is inspected inside the done '
+    'notification; plus real-process (fork) runs.',
+    'Real cross-process interleavings are not steered; worker death out of scope.', 'protocol trace checker + directory oracle',
+    '4 C19', 'procpool,director,yieldinj,runner')
+chk('C20', 'exploration',
+    'The real CRTTransferManager Python layer against a stub awscrt: all outcome assignments over {ok,error,cancel,serialize-fail,'
+    'make-fail} for <=3/4 transfers x completion orders, random runs with far more transfers than permits, exits with pending '
+    'requests and slow on_done; per-transfer permit-release attribution, semaphore value at quiescence, ordering and temp-file oracles.',
+    'awscrt itself is absent: only the Python glue is exercised against a stub that honours the documented callback contract.',
+    'stub-driven glue monitor', '4 C20', 'crtstub,watchdog,runner')
